@@ -52,7 +52,7 @@ def callSpec (P : Parser) (c : Call) (w0 : World) (outcome dumpBefore dumpAfter 
   else if c.api == "query" then
     -- no syntax error: effects in program order = sequential application of the statements
     if !hasKg w0 (c.kgArg.getD "default") then ("na", false) else
-    let final := match specRun P ⟨w0, c.kgArg.getD "default", [], none, none, [], [], []⟩ lines with
+    let final := match (specRun P ⟨w0, c.kgArg.getD "default", [], none, none, [], []⟩ [] lines).1 with
       | .cont s => s.w | .abort s _ => s.w
     if printWorld final == dumpAfter then (specOk, nMut ≥ 2) else (specFail "unclassified" "effects-not-in-program-order", nMut ≥ 2)
   else ("na", false)
